@@ -818,10 +818,12 @@ impl NormalizedDurationRecord {
         let mut smallest_unit = smallest_unit + 1;
         // 7. Let done be false.
         // 8. Repeat, while unitIndex ≤ largestUnitIndex and done is false,
-        while smallest_unit != Unit::Auto && largest_unit < smallest_unit {
+        // NOTE: `Unit` orders larger units above smaller ones, so "unitIndex ≥ largestUnitIndex"
+        // in the (inverted) specification table is `unit <= largest_unit` here.
+        while smallest_unit != Unit::Auto && smallest_unit <= largest_unit {
             // a. Let unit be the value in the "Singular" column of Table 22 in the row whose ordinal index is unitIndex.
             // b. If unit is not "week", or largestUnit is "week", then
-            if smallest_unit == Unit::Week || largest_unit != Unit::Week {
+            if smallest_unit == Unit::Week && largest_unit != Unit::Week {
                 smallest_unit = smallest_unit + 1;
                 continue;
             }
